@@ -220,6 +220,16 @@ class WebSocketReader:
                     "Continuation frame for non started message",
                 )
 
+            # A fragmented message is open until its final continuation frame:
+            # fragments of different messages must not be interleaved.
+            # https://datatracker.ietf.org/doc/html/rfc6455#section-5.4
+            if opcode != OP_CODE_CONTINUATION and self._opcode != OP_CODE_NOT_SET:
+                raise WebSocketError(
+                    WSCloseCode.PROTOCOL_ERROR,
+                    "The opcode in non-fin frame is expected "
+                    f"to be zero, got {opcode!r}",
+                )
+
             # load text/binary
             if not fin:
                 # got partial frame payload
@@ -232,14 +242,6 @@ class WebSocketReader:
             if opcode == OP_CODE_CONTINUATION:
                 opcode = self._opcode
                 self._opcode = OP_CODE_NOT_SET
-            # previous frame was non finished
-            # we should get continuation opcode
-            elif has_partial:
-                raise WebSocketError(
-                    WSCloseCode.PROTOCOL_ERROR,
-                    "The opcode in non-fin frame is expected "
-                    f"to be zero, got {opcode!r}",
-                )
 
             assembled_payload: bytes | bytearray
             if has_partial:
